@@ -643,14 +643,14 @@ def racy_read_runs(c, g=None, rng=None):
 
 def c16_plans(tier):
     if tier == "quick":
-        return [Plan("MC_Witness(hist)", H(tier, BadKinds={"random", "flip"}), nwalks=150, depth=20, reads=True, http=True, stores=Q_ST, embeds=("id",), want=want_accept,
+        return [Plan("MC_Witness(hist)", H(tier, BadKinds={"random", "flip"}, Exts={0, 1}), nwalks=150, depth=20, reads=True, http=True, stores=Q_ST, embeds=("id",), want=want_accept,
                      extra_runs=lambda c, g, rng: racy_read_runs(c)),
                 Plan("MC_Witness2(shared key)", W2(tier), keyof=KEYOF, edges=False, nwalks=100, depth=20, reads=True, http=True, stores=("inmem", "sqlfile"), embeds=("id",),
                      extra_runs=lambda c, g, rng: odd_runs(c, g, rng) + racy_read_runs(c), want=want_accept),
                 # note shapes up to the signature-line limit: a first submission that is refused AFTER the storage was opened must leave no entry
                 Plan("MC_Witness(pad)", PAD(tier, 2, Stales={0}, Exts={0}), nwalks=40, depth=8, reads=True, http=True, stores=("inmem", "sqlfile"), embeds=("id",), want=want_accept)]
     return [Plan("MC_Witness(pad)", PAD(tier, 2), nwalks=200, depth=10, reads=True, http=True, stores=T_ST, embeds=("id",), want=want_accept),
-            Plan("MC_Witness(hist)", H(tier), nwalks=1500, depth=40, reads=True, http=True, stores=T_ST, embeds=("id", "mixed"), want=want_accept, extra_runs=lambda c, g, rng: racy_read_runs(c)),
+            Plan("MC_Witness(hist)", H(tier, Exts={0, 1}), nwalks=1500, depth=40, reads=True, http=True, stores=T_ST, embeds=("id", "mixed"), want=want_accept, extra_runs=lambda c, g, rng: racy_read_runs(c)),
             Plan("MC_Witness2(3 logs)", W2(tier), keyof=KEYOF, edges=True, nwalks=1000, depth=30, reads=True, http=True, stores=T_ST, embeds=("id",),
                  extra_runs=lambda c, g, rng: odd_runs(c, g, rng) + racy_read_runs(c), want=want_accept)]
 
